@@ -29,17 +29,18 @@ Print Assumptions C11_commit_all_or_nothing.
 (* along ANY sequence of operations of the op language (bucket create/delete, put, delete, clear, reads, iterators,
    commit, rollback, Update with or without error, reopen) the committed store changes at a commit only, and then by
    the whole log at once: nothing of a write transaction is visible before, everything after *)
-Theorem C11_store_changes_only_at_commit : forall st o,
-  st_store (fst (step st o)) = st_store st \/
+Theorem C11_store_changes_only_at_commit : forall snap st o,
+  st_store (fst (step_gen snap st o)) = st_store st \/
   exists b, st_wtx st = Some b /\ (o = OCommit \/ o = OUEnd false) /\
-            st_store (fst (step st o)) = apply_log (st_store st) (b_log b).
+            st_store (fst (step_gen snap st o)) = apply_log (st_store st) (b_log b).
 Proof. exact store_changes_only_at_commit. Qed.
 Print Assumptions C11_store_changes_only_at_commit.
 
 (* the invariants the other theorems assume hold after every op sequence *)
 Theorem C11_invariant_all_sequences : forall ops,
   keys_sorted (st_store (run ops)) /\
-  match st_wtx (run ops) with Some b => batch_wf b | None => True end.
+  match st_wtx (run ops) with Some b => batch_wf b | None => True end /\
+  match st_rtx (run ops) with Some s0 => keys_sorted s0 | None => True end.
 Proof. exact run_inv. Qed.
 Print Assumptions C11_invariant_all_sequences.
 
@@ -82,8 +83,8 @@ Theorem C11_read_your_writes_names_partial : forall s b pfx d l, keys_sorted s -
 Proof. exact read_your_writes_names_scan. Qed.
 Print Assumptions C11_read_your_writes_names_partial.
 
-(* outside a write transaction reads see the committed store only *)
-Theorem C11_read_only_reads : forall s h,
+(* the read functions handed a store [s] and no batch (that is what a read transaction calls) return exactly [s]'s content *)
+Theorem C11_read_functions_on_store : forall s h,
   (forall k, k <> [] -> bucket_get s None h k = s_get (inner_key (h_path h) k) s) /\
   (keys_sorted s -> keys_bytes s -> bytes_ok (h_path h) -> forall prefix, bytes_ok prefix ->
    forall k v, In (k, v) (get_by_prefix s None h prefix) <->
@@ -91,7 +92,58 @@ Theorem C11_read_only_reads : forall s h,
 Proof.
   exact (fun s h => conj (read_only_get s h) (fun Hs Hb Hp prefix Hpre => read_only_prefix s h prefix Hs Hb Hp Hpre)).
 Qed.
+Print Assumptions C11_read_functions_on_store.
+
+(* ---- a read transaction reads one snapshot (the database half of C17).
+   [step] = [step_gen true] is the code as it is now (BeginReadTx takes a goleveldb snapshot, every read of the
+   transaction is served from it); [step_unrepaired] = [step_gen false] the code as first found. *)
+(* BeginReadTx captures the store committed at that moment ... *)
+Theorem C11_read_tx_begin_captures : forall snap st, st_rtx st = None -> st_open st = true ->
+  st_rtx (fst (step_gen snap st (OBegin false))) = Some (st_store st) /\ snd (step_gen snap st (OBegin false)) = ROk.
+Proof. exact begin_read_captures. Qed.
+Print Assumptions C11_read_tx_begin_captures.
+
+(* ... and over ANY interleaving [ops] of further operations that does not end the read transaction — write
+   transactions that commit, db.Update blocks, other reads, iterators — every read through it (bucket lookups,
+   listings, point reads, prefix reads, new iterators) is the read function applied to THAT store *)
+Theorem C11_read_tx_snapshot : forall st s0 ops, st_rtx st = Some s0 -> Forall (fun o => o <> OREnd) ops ->
+  let st' := exec true st ops in
+  (forall dst name, snd (step st' (OTop false dst name)) =
+                    match top_level_bucket s0 None name with Some _ => ROk | None => RNil end) /\
+  snd (step st' (OTxNames false)) = match tx_bucket_names s0 None with Ok l => RNames l | Err e => RErr e end /\
+  forall src h, get_slot src (st_bs st') = Some (false, h) ->
+    (forall k, snd (step st' (OGet src k)) = match bucket_get s0 None h k with Some v => RVal v | None => RNil end) /\
+    (forall p, snd (step st' (OPfx src p)) = REntries (get_by_prefix s0 None h p)) /\
+    snd (step st' (ONames src)) = match bucket_names s0 None h with Ok l => RNames l | Err e => RErr e end /\
+    (forall dst name, snd (step st' (OBucket dst src name)) = match bucket s0 None h name with Some _ => ROk | None => RNil end) /\
+    (forall dst a l, st_is (fst (step st' (OIter dst src 1 a l))) =
+                     set_nth dst (Some (false, new_iterator s0 None h a l)) (st_is st')).
+Proof. exact read_tx_reads_snapshot. Qed.
+Print Assumptions C11_read_tx_snapshot.
+
+(* hence: a read transaction sees exactly the store committed when it began, whatever is committed later
+   ([st_store (exec true st ops)] is unconstrained) *)
+Theorem C11_read_only_reads : forall st s0 ops, inv st -> st_rtx st = Some s0 -> Forall (fun o => o <> OREnd) ops ->
+  let st' := exec true st ops in
+  forall src h, get_slot src (st_bs st') = Some (false, h) ->
+    (forall k, k <> [] -> snd (step st' (OGet src k)) =
+                          match s_get (inner_key (h_path h) k) s0 with Some v => RVal v | None => RNil end) /\
+    (keys_bytes s0 -> bytes_ok (h_path h) -> forall p, bytes_ok p ->
+       exists l, snd (step st' (OPfx src p)) = REntries l /\
+                 forall k v, In (k, v) l <-> has_prefix p k = true /\ s_get (inner_key (h_path h) k) s0 = Some v).
+Proof. exact read_tx_sees_begin_store. Qed.
 Print Assumptions C11_read_only_reads.
+
+(* the code as first found violates this: the same point read, executed twice inside one read transaction with a
+   committing write transaction in between, answers nil and then the new value (witness: Proofs.refute_pre/_mid);
+   the repaired code answers the same both times.  Repaired in /repo by commit 2763853. *)
+Theorem C11_read_tx_unrepaired_refuted :
+  exists pre mid o,
+    st_rtx (exec false init_state pre) <> None /\ Forall (fun o => o <> OREnd) mid /\
+    snd (step_unrepaired (exec false init_state pre) o) <> snd (step_unrepaired (exec false init_state (pre ++ mid)) o) /\
+    snd (step (exec true init_state pre) o) = snd (step (exec true init_state (pre ++ mid)) o).
+Proof. exact unrepaired_read_tx_refuted. Qed.
+Print Assumptions C11_read_tx_unrepaired_refuted.
 
 (* ---- isolation between buckets *)
 (* for the paths the API hands out ("<depth>_<name1>_..._<nameDepth>", names non-empty and free of '_') the stored key
@@ -171,6 +223,11 @@ Example C11_ex_run :
                 /\ bucket_get (st_store (run ex_ops)) (Some b) (mkHandle [49; 95; 97] 1) [107; 95; 255] = None
                 /\ bucket_get (st_store (run ex_ops)) None (mkHandle [49; 95; 97] 1) [107; 95; 255] = Some [118]).
 Proof. vm_compute. split; [reflexivity|]. eexists. repeat split. Qed.
+Example C11_ex_closed :
+  snd (step (exec true init_state [OClose]) (OBegin true)) = RErr EClosed /\
+  snd (step (exec true init_state [OClose]) (OBegin false)) = RErr EClosed /\
+  snd (step (exec true init_state [OClose; OReopen]) (OBegin true)) = ROk.
+Proof. vm_compute. repeat split. Qed.
 Example C11_ex_valid_path : valid_path [50; 95; 97; 95; 50] /\ handle_wf (mkHandle [50; 95; 97; 95; 50] 2).
 Proof.
   split.
